@@ -76,6 +76,7 @@ pub struct PortCase {
     pub write_resets_timeout: bool,
 }
 
+#[derive(Default)]
 struct NullBus;
 impl SignBus for NullBus {
     fn process_message<'a>(&mut self, _: Message<'_>) -> Result<Option<Message<'a>>, Box<dyn std::error::Error + Send + Sync>> {
@@ -192,7 +193,52 @@ pub fn check_port(c: &PortCase, st: &mut Stats) -> Result<(), String> {
     Ok(())
 }
 
+/// Other public ways to a bus or a bridge, as far as this tree offers them (probed at compile time): an object built through
+/// `Default` from a default port owns a port like any other and must have configured it.
+fn api_probes() -> Result<Vec<&'static str>, String> {
+    #[allow(unused_imports)]
+    use crate::engine::{DefaultProbe, NoDefault, ViaDefault};
+    use crate::io::port::DEFAULT_PORTS;
+    let mut offered = vec![];
+    let check_last = |what: &str| -> Result<(), String> {
+        let h = DEFAULT_PORTS.with(|d| d.borrow().last().cloned()).ok_or_else(|| format!("{what}: built without creating a port"))?;
+        let s = h.borrow();
+        if s.settings != target() {
+            return Err(format!("{what} owns a port left at {:?}, not 19200/8/N/1/none (and no error was reported)", s.settings));
+        }
+        match s.timeout {
+            Some(t) if !t.is_zero() => Ok(()),
+            other => Err(format!("{what} owns a port with read timeout {other:?}")),
+        }
+    };
+    if let Some(bus) = (&DefaultProbe::<SerialSignBus<TestPort>>(std::marker::PhantomData)).make() {
+        offered.push("SerialSignBus<P: Default>: Default");
+        check_last("SerialSignBus::default()")?;
+        drop(bus);
+    }
+    if let Some(odk) = (&DefaultProbe::<Odk<TestPort, NullBus>>(std::marker::PhantomData)).make() {
+        offered.push("Odk<P: Default, B: Default>: Default");
+        check_last("Odk::default()")?;
+        drop(odk);
+    }
+    Ok(offered)
+}
+
 pub fn run(ctx: &Ctx) {
+    {
+        let mut st = Stats::new();
+        st.evals(2);
+        match catch(api_probes) {
+            Ok(Ok(offered)) => ctx.part_done("api-probes", true, json!({"probed": ["SerialSignBus: Default", "Odk: Default"], "offered_by_this_tree": offered})),
+            Ok(Err(m)) => {
+                ctx.fail("api-probes", json!({"api_probes": true}), m);
+            }
+            Err(p) => {
+                ctx.fail("api-probes", json!({"api_probes": true}), format!("a default-constructed bus / bridge panicked: {p}"));
+            }
+        }
+        ctx.merge("api-probes", st);
+    }
     run_product(ctx, "product");
     // the same product with a logger installed at Trace level (log arguments are evaluated only then)
     crate::engine::with_logging(|| run_product(ctx, "product+logging"));
@@ -244,7 +290,10 @@ fn run_product(ctx: &Ctx, part: &str) {
     ctx.part_done(part, true, json!({"prior_settings": n_prior, "entry_points": 3, "failure_points": 5, "error_kinds": 3, "configure_port_timeouts_ms": TIMEOUTS_MS}));
 }
 
-pub fn replay(_part: &str, case: &Value) -> Result<(), String> {
+pub fn replay(part: &str, case: &Value) -> Result<(), String> {
+    if part == "api-probes" {
+        return catch(api_probes).map_err(|p| format!("a default-constructed bus / bridge panicked: {p}"))?.map(|_| ());
+    }
     let c: PortCase = serde_json::from_value(case.clone()).map_err(|e| format!("bad case: {e}"))?;
     check_port(&c, &mut Stats::new())
 }
